@@ -57,6 +57,31 @@ Definition wf_pick (left right : Z) (ords : list Z) (u : Q) : option (nat * nat 
 Definition seg_frames {A} (s : nat * nat * nat) (l : list A) : list A :=
   let '(a, b, _) := s in firstn (b + 1 - a) (skipn a l).
 
+(* The seeding segment as the code builds it:
+     new_segment = path.empty_path(maxlen=path.maxlen)
+     for j in range(ipath[0], ipath[1] + 1): new_segment.append(path.phasepoints[j])
+   Path.append adds the point iff maxlen is None or length < maxlen and otherwise drops it
+   silently (the loop ignores the return value).  [lim] is the limit of the container:
+   path.maxlen, None = Python's None.  Nothing else is read by the code, in particular not
+   ens_set["tis_set"]["maxlength"]. *)
+Definition append_lim {A} (lim : option nat) (acc : list A) (x : A) : list A :=
+  match lim with
+  | None => acc ++ [x]
+  | Some m => if (length acc <? m)%nat then acc ++ [x] else acc
+  end.
+
+Definition wf_seed {A} (pmaxlen : option nat) (sg : nat * nat * nat) (l : list A) : list A :=
+  fold_left (append_lim pmaxlen) (seg_frames sg l) [].
+
+(* return_seg=True: the chosen (entry, exit, count) and the frames of the returned segment;
+   [frames] are the path's phase points (any payload), [pmaxlen] is path.maxlen *)
+Definition wf_pick_seed {A} (left right : Z) (ords : list Z) (frames : list A)
+           (pmaxlen : option nat) (u : Q) : option ((nat * nat * nat) * list A) :=
+  match wf_pick left right ords u with
+  | None => None
+  | Some sg => Some (sg, wf_seed pmaxlen sg frames)
+  end.
+
 (* compute_weight(path, [i0, i1, i2], move): wf weight (1 for other moves), doubled when
    start side <> end side w.r.t. (i0, i2) for moves ss / wf.  [None] = the assertion
    left <= right of get_start_point fails or the path is empty. *)
@@ -80,7 +105,8 @@ Definition list_max (d : Z) (l : list Z) : Z := fold_left Z.max l d.
 
 (* calc_cv_vector(path, interfaces, moves, lambda_minus_one, cap, minus).
    moves has one more leading entry (the [0-] move): moves[idx+1] belongs to interface idx.
-   lm1 = None models False. *)
+   lm1 = None models False (lambda_minus_one not in use); Some l is a number, 0 included: the
+   code tests `lambda_minus_one is not False`, never the truth value of the number. *)
 Fixpoint cv_plus (ords : list Z) (pmax : Z) (i0 : Z) (capv : Z) (intfs : list Z) (mvs : list move)
   : option (list Z) :=
   match intfs with
